@@ -4,10 +4,12 @@
 package gen
 
 import (
+	"bytes"
 	"fmt"
 	"net"
 	"os"
 	"path/filepath"
+	"sort"
 	"strings"
 	"sync"
 
@@ -21,21 +23,23 @@ import (
 // TTLBase is added to the generation number to make the TTL of every record.
 const TTLBase = 100000
 
-// MapLines are the location map lines, identical in all generations.
-var MapLines = []string{
-	`%\000\001,0.0.0.0/0,c\000`,
-	`%\000\001,::/0,c\000`,
-	`%\000\002,10.1.0.0/16,c\000`,
-	`%\000\003,10.2.0.0/16,c\000`,
-	`Mexample.com,c\000`,
-	`M*.example.com,c\000`,
-	// client-subnet (ECS) map: the same locations by the client's subnet
-	`%\000\001,0.0.0.0/0,ec`,
-	`%\000\001,::/0,ec`,
-	`%\000\002,10.1.0.0/16,ec`,
-	`%\000\003,10.2.0.0/16,ec`,
-	`8example.com,ec`,
-	`8*.example.com,ec`,
+// MapLinesFor returns the location map lines of generation g. The two located subnets swap
+// their locations with the parity of g, so that a response whose location lookup and record
+// lookups come from different generations is wrong even though all its records carry one stamp.
+func MapLinesFor(g int) []string {
+	a, b := `\000\002`, `\000\003`
+	if g%2 == 1 {
+		a, b = b, a
+	}
+	var l []string
+	for _, m := range []string{`c\000`, "ec"} {
+		l = append(l,
+			`%\000\001,0.0.0.0/0,`+m,
+			`%\000\001,::/0,`+m,
+			`%`+a+`,10.1.0.0/16,`+m,
+			`%`+b+`,10.2.0.0/16,`+m)
+	}
+	return append(l, `Mexample.com,c\000`, `M*.example.com,c\000`, `8example.com,ec`, `8*.example.com,ec`)
 }
 
 // ValidationName is the owner of the validation record.
@@ -80,17 +84,52 @@ func RecordLines(g int, noKey bool) []string {
 
 // DataText is the whole data file of generation g.
 func DataText(g int, noKey bool) string {
-	return strings.Join(append(append([]string{}, MapLines...), RecordLines(g, noKey)...), "\n") + "\n"
+	return strings.Join(append(MapLinesFor(g), RecordLines(g, noKey)...), "\n") + "\n"
 }
 
-// DiffText is the diff turning generation g1 into g2.
-func DiffText(g1 int, noKey1 bool, g2 int, noKey2 bool) string {
-	var b strings.Builder
-	for _, l := range RecordLines(g1, noKey1) {
-		b.WriteString("-" + l + "\n")
+// Preprocess runs the repository's preprocessor (subnet lines become range-point lines) over a
+// data file, as dnsrocks-preproc does before diffs are made.
+func Preprocess(text string) []string {
+	c := new(dnsdata.Codec)
+	c.Serial = 1
+	c.Acc.Ranger.Enable()
+	c.Acc.NoPrefixSets = true
+	c.NoRnetOutput = true
+	var w bytes.Buffer
+	if err := c.Preprocess(strings.NewReader(text), &w); err != nil {
+		panic(fmt.Sprintf("preprocess: %v", err))
 	}
-	for _, l := range RecordLines(g2, noKey2) {
-		b.WriteString("+" + l + "\n")
+	var out []string
+	for _, l := range strings.Split(w.String(), "\n") {
+		if l != "" {
+			out = append(out, l)
+		}
+	}
+	return out
+}
+
+// DiffText is the line diff (on preprocessed files) turning generation g1 into g2.
+func DiffText(g1 int, noKey1 bool, g2 int, noKey2 bool) string {
+	cnt := map[string]int{}
+	for _, l := range Preprocess(DataText(g1, noKey1)) {
+		cnt[l]--
+	}
+	for _, l := range Preprocess(DataText(g2, noKey2)) {
+		cnt[l]++
+	}
+	keys := make([]string, 0, len(cnt))
+	for k := range cnt {
+		keys = append(keys, k)
+	}
+	sort.Strings(keys)
+	var b strings.Builder
+	for _, k := range keys {
+		for n := cnt[k]; n < 0; n++ {
+			b.WriteString("-" + k + "\n")
+		}
+		for n := cnt[k]; n > 0; n-- {
+			b.WriteString("+" + k + "\n")
+		}
 	}
 	return b.String()
 }
